@@ -21,21 +21,24 @@ Definition is_end (s : sym) : bool := N.eqb s sym_end.
 Definition source_return (src : nat) (s : sym) : leaf :=
   LRet (if accepting d src then RDone else if is_end s then RFail else ROk) src false.
 
-Definition epilogue (rec : nat -> tree) (src : nat) (s : sym) (t : trans) (qc : nat) (adv : bool) : tree :=
+(** [goes_on]: the transition has a target state, or a break has just set the state it leaves for (the code behind the
+    skip label goes on exactly as if the target existed; a target is absent only when it was removed as unreachable) *)
+Definition epilogue (rec : nat -> tree) (src : nat) (s : sym) (t : trans) (qc : nat) (adv : bool) (brk : bool) : tree :=
+  let goes_on := brk || match t_tgt t with Some _ => true | None => false end in
   if t_fall t then
-    match t_tgt t with Some _ => rec qc | None => Leaf (source_return src s) end
+    if goes_on then rec qc else Leaf (source_return src s)
   else if immediate_done d t then Leaf (LRet RDone qc adv)
   else if is_end s then Leaf (LRet (if accepting d src then RDone else RFail) qc false)
-  else match t_tgt t with Some _ => Leaf (LConsume qc) | None => Leaf (source_return src s) end.
+  else if goes_on then Leaf (LConsume qc) else Leaf (source_return src s).
 
 Fixpoint run_acts (rec : nat -> tree) (src : nat) (s : sym) (t : trans) (a : atree) (qc : nat) (adv : bool) : tree :=
   match a with
-  | AEnd => epilogue rec src s t qc adv
+  | AEnd => epilogue rec src s t qc adv false
   | APrim p k => Act p (run_acts rec src s t k qc adv)
   | ATest c a1 a2 => Test c (run_acts rec src s t a1 qc adv) (run_acts rec src s t a2 qc adv)
   | ARet r => Leaf (LRet r qc adv)
   | AGoto q2 => rec q2
-  | ABreak q2 => epilogue rec src s t q2 adv
+  | ABreak q2 => epilogue rec src s t q2 adv true
   end.
 
 Definition early_adv (s : sym) (t : trans) : bool :=
